@@ -51,6 +51,7 @@ theorem invD_loc {s : State} {t : Tid} {e : Event} {x' : Thr} (ha : InvA s) (hi 
         · simp [hu] at hdone hr hp ⊢; exact d5 u hdone r hr hp
     | spinLd site obs hl' ho => rcases hl' with ⟨_, hl'⟩ | ⟨_, hl'⟩ <;> rw [hl] at hl' <;> cases hl'
     | spinLdN obs hl' ho => rw [hl] at hl'; cases hl'
+    | dbgLd obs hl' ho => rw [hl] at hl'; cases hl'
   · refine invD_frame hi rfl (.inl ⟨rfl, rfl⟩) (fun r hr => .inl hr) (fun q => .inl ⟨rfl, rfl, id⟩) ?_
     intro u
     by_cases hu : u = t
@@ -231,6 +232,20 @@ theorem invD_acq {cfg : Config} {s : State} (ha : InvA s) (hi : InvD s) (t : Tid
       simp [hu] at hdone ⊢
       exact d5 u hdone r hr hp
   · rename_i hc; simp only at hc
+    constructor
+    · intro u; by_cases hu : u = t
+      · subst hu; simpa using d1 u
+      · simpa [hu] using d1 u
+    · exact d2
+    · intro h e1 e2 r hr
+      simp at e2 hr
+      rw [hempty e2] at hr; cases hr
+    · exact d4
+    · intro u hdone r hr hp
+      have hu : u ≠ t := by intro e; subst e; simp [bcastDone] at hdone
+      simp [hu] at hdone ⊢
+      exact d5 u hdone r hr hp
+  · rename_i hc; simp only at hc
     exact invD_acq_sig ⟨d1, d2, d3, d4, d5⟩ t n _ _ _ _ _ hempty (fun hb => by simp [hb])
 
 set_option maxHeartbeats 1000000 in
@@ -249,6 +264,9 @@ theorem invD_tr {cfg : Config} {s s' : State} {e : Event} (ha : InvA s) (hi : In
   | relWait t new obs n hl hh hnew hn hsp => exact invD_relPub ha hi t n .wUnlock (.inl hl) (.inl rfl)
   | relEnq t new obs n hl hh hnew hn hsp => exact invD_relPub ha hi t n .nOut (.inr hl) (.inr rfl)
   | relWait2 t new obs n hl hh hnew hn hsp =>
+    exact invD_frame hi rfl (.inr rfl) (fun r hr => .inl hr) (fun q => .inl ⟨rfl, rfl, id⟩)
+      (fun u => thr_frame (t := t) (fun v hv => by simp [hv]) (by simp) (by simp [bcastDone]) u)
+  | relDbg t new obs n hl hh hnew hn hsp =>
     exact invD_frame hi rfl (.inr rfl) (fun r hr => .inl hr) (fun q => .inl ⟨rfl, rfl, id⟩)
       (fun u => thr_frame (t := t) (fun v hv => by simp [hv]) (by simp) (by simp [bcastDone]) u)
   | relSig t site new obs n hl hs hh hnew hn hsp =>
